@@ -43,10 +43,10 @@ class M(Model):
         self.N = int(env.num_nodes)
         self.K = int(env.num_nodes_per_agent)
         self.T = int(env.time_limit)
-        gen = env._generator
-        self.num_edges = int(getattr(gen, "_num_edges", -1))
-        self.max_degree = int(getattr(gen, "_max_degree", -1))
+        # consecutive node blocks: how SplitRandomGenerator happens to split the graph today.  Used as a first
+        # guess by the solver / the solvability certificate only, never as a requirement.
         self.blocks = [x.tolist() for x in np.array_split(np.arange(self.N), self.A)]
+        self.unknown = 0
         self._validated = 0
         self.replays = 0
 
@@ -55,19 +55,23 @@ class M(Model):
         return np.asarray(s.adj_matrix, np.int64) != 0
 
     def _visited(self, s):
-        """per agent: set of nodes the agent has been on (connected_nodes_index and the stored route)."""
-        idx = np.asarray(s.connected_nodes_index, np.int64)
+        """per agent: set of nodes the agent has been on = its stored route (`connected_nodes`: "node indices
+        denoting route, -1 --> not filled yet") plus its current position ("the index of the last visited node").
+        The helper arrays `connected_nodes_index` / `position_index` are bookkeeping whose encoding the docs do
+        not define; they are not read."""
+        pos = np.asarray(s.positions, np.int64)
         out = []
         for a in range(self.A):
-            v = {int(x) for x in np.flatnonzero(idx[a] != -1)}
-            v |= {int(x) for x in self._path(s, a) if x >= 0}
+            v = {int(x) for x in self._path(s, a) if x >= 0}
+            if 0 <= int(pos[a]) < self.N:
+                v.add(int(pos[a]))
             out.append(v)
         return out
 
     def _path(self, s, a):
         cn = np.asarray(s.connected_nodes, np.int64)[a]
-        n = int(np.asarray(s.position_index, np.int64)[a]) + 1
-        return cn[: max(0, min(n, cn.size))].tolist()
+        empty = np.flatnonzero(cn == -1)
+        return cn[: int(empty[0]) if empty.size else cn.size].tolist()
 
     def _todo(self, s, a):
         return [int(x) for x in np.asarray(s.nodes_to_connect, np.int64)[a].tolist()]
@@ -121,8 +125,6 @@ class M(Model):
         adj = self._adj(s)
         types = np.asarray(s.node_types, np.int64)
         pos = np.asarray(s.positions, np.int64)
-        cn = np.asarray(s.connected_nodes, np.int64)
-        pidx = np.asarray(s.position_index, np.int64)
         visited = self._visited(s)
         for a in range(self.A):
             for b2 in range(a + 1, self.A):
@@ -138,22 +140,17 @@ class M(Model):
                 if not adj[u, v]:
                     out.append(("consecutive route nodes are not joined by an edge", f"agent {a}: {u}->{v} in {path}"))
                     break
-            if path and pidx[a] < cn.shape[1] and path[-1] != int(pos[a]):
-                out.append(("route does not end at the agent's position", f"agent {a}: route {path} position {int(pos[a])}"))
+            # (route end == position is a consistency of two state fields, not a hard constraint: not asserted)
         return out
 
     def complete(self, s, ts):
         visited = self._visited(s)
         fin = self._finished(s, visited)
         if not all(fin):
-            if int(s.step_count) < self.T:
-                return [("episode ended before the time limit although an agent still has nodes to connect",
-                         f"step_count={int(s.step_count)} finished={fin}")]
-            return []
+            return []  # not ended by completion (why else it ended is C11/C09's business, not C06's)
         out = list(self.constraints(s))
         flags = np.asarray(s.finished_agents).astype(bool).tolist()
         cn = np.asarray(s.connected_nodes, np.int64)
-        pidx = np.asarray(s.position_index, np.int64)
         pos = np.asarray(s.positions, np.int64)
         for a in range(self.A):
             missing = [x for x in self._todo(s, a) if x not in set(cn[a].tolist())]
@@ -161,16 +158,16 @@ class M(Model):
                 continue
             # connected_nodes has time_limit columns: start node + time_limit moves do not fit, the scatter of
             # the last move is dropped silently when the agent moved on every step of the episode
-            overflow = (int(pidx[a]) >= cn.shape[1] and int(s.step_count) >= self.T and missing == [int(pos[a])])
+            overflow = (bool((cn[a] != -1).all()) and int(s.step_count) >= self.T and missing == [int(pos[a])])
             if overflow:
                 out.append((OVERFLOW_SIG,
                             f"agent {a} reached node {int(pos[a])} on step {int(s.step_count)} = time_limit; "
-                            f"connected_nodes[{a}]={cn[a].tolist()} (time_limit columns, no slot for move "
-                            f"{int(pidx[a])}), finished_agents={flags}"))
+                            f"connected_nodes[{a}]={cn[a].tolist()} (time_limit columns, no slot left), "
+                            f"finished_agents={flags}"))
             else:
                 out.append(("every agent reached all its nodes but finished_agents / connected_nodes do not show it",
                             f"agent {a}: finished_agents={flags} nodes missing from connected_nodes={missing} "
-                            f"step_count={int(s.step_count)} time_limit={self.T} position_index={pidx.tolist()}"))
+                            f"step_count={int(s.step_count)} time_limit={self.T}"))
         return out
 
     # ------------------------------------------------------------------------------ C08
@@ -290,14 +287,85 @@ class M(Model):
                         stack.append(v)
         return comp
 
+    def _grow(self, adj, start, targets, allowed):
+        """greedy connected node set inside `allowed` that holds `start` and all `targets` (tree grown by
+        shortest paths to the nearest missing target), or None"""
+        allowed = sorted(set(allowed) | {start})
+        if any(t not in allowed for t in targets):
+            return None
+        tree, todo = {start}, set(targets) - {start}
+        while todo:
+            prev, frontier, hit = {u: None for u in tree}, sorted(tree), None
+            while frontier and hit is None:
+                nxt = []
+                for u in frontier:
+                    for v in allowed:
+                        if adj[u, v] and v not in prev:
+                            prev[v] = u
+                            nxt.append(v)
+                            if v in todo and hit is None:
+                                hit = v
+                frontier = nxt
+            if hit is None:
+                return None
+            v = hit
+            while v is not None and v not in tree:
+                tree.add(v)
+                v = prev[v]
+            todo -= tree
+        return tree
+
+    def _certificate(self, adj, types, todo, pos):
+        """Witness of solvability: pairwise disjoint connected node sets, one per agent, each holding the agent's
+        start and all its nodes (walking inside them never shares a node, so the hard constraint holds and no
+        tie-break can occur).  -> list of sets, or None when this heuristic search finds none."""
+        import itertools
+
+        own = [[int(v) for v in todo[a].tolist()] for a in range(self.A)]
+        # first guess: the generator's consecutive blocks
+        sets = [self._grow(adj, int(pos[a]), own[a], self.blocks[a]) for a in range(self.A)]
+        if all(x is not None for x in sets):
+            return sets
+        for order in itertools.islice(itertools.permutations(range(self.A)), 24):
+            used, sets = set(), [None] * self.A
+            for a in order:
+                foreign = {int(v) for v in np.flatnonzero((types >= 0) & (types != a))}
+                t = self._grow(adj, int(pos[a]), own[a], [v for v in range(self.N) if v not in used and v not in foreign])
+                if t is None:
+                    break
+                sets[a] = t
+                used |= t
+            if all(x is not None for x in sets):
+                return sets
+        return None
+
+    def _provably_unsolvable(self, adj, types, todo, pos):
+        """Exact decision for small instances: is there NO assignment of the utility nodes to the agents under
+        which every agent's nodes are connected through (typed nodes of any agent + its own utility nodes)?
+        -> True / False / None (too large to decide)."""
+        import itertools
+
+        util = [int(v) for v in np.flatnonzero(types < 0)]
+        if self.A ** len(util) > 20000:
+            return None
+        typed = {int(v) for v in np.flatnonzero(types >= 0)}
+        for assign in itertools.product(range(self.A), repeat=len(util)):
+            ok = True
+            for a in range(self.A):
+                allowed = typed | {u for u, w in zip(util, assign) if w == a}
+                if self._grow(adj, int(pos[a]), [int(v) for v in todo[a].tolist()], allowed) is None:
+                    ok = False
+                    break
+            if ok:
+                return False
+        return True
+
     def validate_instance(self, s0):
         out = []
-        raw = np.asarray(s0.adj_matrix, np.int64)
+        raw = np.asarray(s0.adj_matrix)
         if raw.shape != (self.N, self.N):
             return [("adjacency shape", str(raw.shape))]
-        if not np.isin(raw, (0, 1)).all():
-            out.append(("adjacency matrix not 0/1", ""))
-        adj = raw != 0
+        adj = raw != 0  # (how an edge is encoded - bool / 0-1 - is C01's business)
         if not np.array_equal(adj, adj.T):
             out.append(("adjacency matrix not symmetric", ""))
         if adj.diagonal().any():
@@ -311,50 +379,46 @@ class M(Model):
         # edge that `merge_graphs` adds to link two sub graphs can be refused by the degree test, so the whole
         # graph is occasionally disconnected (x_n13e20a3k2t40, reset key [3740947514, 705134704]).  That matters
         # only if it separates the nodes of one agent, which is what the per-agent test below decides.
+        sane = True
         for a in range(self.A):
             mine = todo[a].tolist()
             if len(set(mine)) != self.K or any(not (0 <= v < self.N) for v in mine):
                 out.append(("an agent's nodes are not distinct valid nodes", f"agent {a}: {mine}"))
+                sane = False
                 continue
             if sorted(mine) != np.flatnonzero(types == a).tolist():
                 out.append(("node_types disagrees with nodes_to_connect", f"agent {a}: {mine} vs {np.flatnonzero(types == a).tolist()}"))
-            block = self.blocks[a]
-            if any(v not in block for v in mine):
-                out.append(("an agent's nodes lie outside its node block", f"agent {a}: {mine} block {block}"))
-            else:
-                comp = self._components(adj, block)
-                if len({comp[v] for v in mine}) != 1:
-                    out.append(("an agent's nodes are not connected inside its own node block", f"agent {a}: {mine}"))
             whole = self._components(adj | adj.T, range(self.N))
             if len({whole[v] for v in mine}) != 1:
                 out.append(("an agent's nodes are mutually unreachable in the graph (unsolvable instance)",
                             f"agent {a}: {mine}"))
+                sane = False
             if int(pos[a]) not in mine:
                 out.append(("agent does not start on one of its nodes", f"agent {a}: position {int(pos[a])} nodes {mine}"))
+                sane = False
             path0 = np.asarray(s0.connected_nodes, np.int64)[a]
             if path0.size and (int(path0[0]) != int(pos[a]) or (path0[1:] != -1).any()):
                 out.append(("initial route is not [start, -1, ...]", f"agent {a}: {path0.tolist()}"))
         if ((types < -1) | (types >= self.A)).any():
             out.append(("node type out of range", f"{types.tolist()}"))
-        if int(s0.step_count) != 0:
-            out.append(("initial step_count != 0", str(int(s0.step_count))))
-        if np.asarray(s0.finished_agents).any():
-            out.append(("agent finished at reset", ""))
-        # Observations, not asserted (`num_edges` is the *desired* number of edges and neither parameter is
-        # named in the C10 statement): `add_edge` tests degree > max_degree, so nodes reach max_degree + 1
-        # (n12e18a2k3t7, reset key [0, 0]: node 2 has degree 6 > 5, ~30% of instances); `make_random_edge`
-        # returns an unordered pair while the Cantor edge code is order-sensitive, so a reversed duplicate of
-        # an existing edge is accepted and the graph has fewer distinct edges than num_edges (~half of them).
-        # per-agent edge view and mask agree with the graph at reset (all starts are typed nodes)
-        ne = np.asarray(s0.node_edges, np.int64)
-        want = np.where(adj, np.arange(self.N)[None, :], -1)
-        for a in range(self.A):
-            if ne.shape == (self.A, self.N, self.N) and not np.array_equal(ne[a], want):
-                out.append(("node_edges differs from the adjacency matrix at reset", f"agent {a}"))
-                break
+            sane = False
+        # Not asserted: step_count / finished_agents / node_edges at reset (bookkeeping, not instance invariants
+        # named by C10); `num_edges` (the *desired* number of edges) and `max_degree` (`add_edge` tests
+        # degree > max_degree, so nodes reach max_degree + 1: n12e18a2k3t7, reset key [0, 0]); which nodes form
+        # which sub graph ("splitting the graph into sub graphs" does not say they are consecutive blocks).
+        # Asserted: the instance "is solvable" - witnessed by disjoint connected node sets (then also replayed
+        # in the real env), refuted only by an exhaustive search on small instances.
+        cert = self._certificate(adj | adj.T, types, todo, pos) if sane else None
+        if sane and cert is None:
+            verdict = self._provably_unsolvable(adj | adj.T, types, todo, pos)
+            if verdict is True:
+                out.append(("no assignment of utility nodes lets every agent connect its nodes (unsolvable instance)",
+                            f"nodes_to_connect {todo.tolist()} positions {pos.tolist()}"))
+            elif verdict is None:
+                self.unknown += 1  # undecided: neither a witness nor a refutation - never an alarm
         self._validated += 1
-        if not out and self._validated % self.REPLAY_EVERY == 1:
-            out += self._replay_dfs(s0, adj)
+        if not out and cert is not None and self._validated % self.REPLAY_EVERY == 1:
+            out += self._replay_dfs(s0, adj | adj.T, cert)
         return out
 
     def _dfs_walk(self, adj, block, start, targets):
@@ -380,14 +444,14 @@ class M(Model):
         rec(start)
         return walk if not todo else None
 
-    def _replay_dfs(self, s0, adj):
+    def _replay_dfs(self, s0, adj, cert):
         todo = np.asarray(s0.nodes_to_connect, np.int64)
         pos = np.asarray(s0.positions, np.int64)
         walks = []
         for a in range(self.A):
-            w = self._dfs_walk(adj, self.blocks[a], int(pos[a]), todo[a].tolist())
+            w = self._dfs_walk(adj, sorted(cert[a]), int(pos[a]), todo[a].tolist())
             if w is None:
-                return [("no walk inside the agent's block reaches all its nodes", f"agent {a}")]
+                return []  # (cannot happen for a connected witness set; nothing to replay)
             walks.append(w)
         if max(len(w) for w in walks) > self.T:
             return []  # the configured time limit is shorter than this (non-optimal) walk: nothing to replay
@@ -403,18 +467,15 @@ class M(Model):
             mask = np.asarray(s.action_mask).astype(bool)
             for a, w in enumerate(walks):
                 if t < len(w) and not mask[a, w[t]]:
-                    return [("a move of the block-internal solution is masked out",
+                    return [("a move of a node-disjoint solution is masked out",
                              f"agent {a} step {t}: {int(np.asarray(s.positions)[a])}->{w[t]}")]
             s, ts = jax.device_get(self.b.step(s, act))
-            if t < max(len(w) for w in walks) - 1 and int(ts.step_type) == LAST and int(s.step_count) < self.T:
-                return [("episode ended before the block-internal solution was complete", f"step {t}")]
         if ts is not None:
             fin = np.asarray(s.finished_agents).astype(bool)
             full = max(len(w) for w in walks) >= self.T  # the last move may fall on the time limit
             if not fin.all() and not full:
-                return [("replaying a block-internal solution does not finish all agents", f"finished_agents={fin.tolist()}")]
-            if fin.all() and int(ts.step_type) != LAST:
-                return [("all agents finished but the episode continues", "")]
+                return [("replaying a node-disjoint solution does not finish all agents", f"finished_agents={fin.tolist()}")]
+            # (when exactly the episode is flagged LAST is C03/C09's business, not an instance invariant)
         return []
 
     # ------------------------------------------------------------------------------ C12
